@@ -26,7 +26,7 @@ Local Open Scope string_scope.
     recorded outputs still carry the recorded stamps stands for a successful
     execution of the rule with that very action digest, and the outputs hold
     what that execution wrote ([entry_ok]); all stamps are older than the
-    clock. *)
+    clock and a recorded (output, stamp) belongs to one digest only. *)
 Theorem C10_cache_valid : forall h rs src,
   hist_in_scope h (empty_world rs src) ->
   let w := run h (empty_world rs src) in
@@ -80,7 +80,7 @@ Print Assumptions C10_noop_rebuild.
     are executed: a reachable rule runs iff its digest (which covers its own
     definition and, transitively, the digests of everything it depends on)
     is not in the cache with outputs still carrying the recorded stamps. *)
-Theorem C10_minimal_rebuild_partial : forall h rs src ts w1 e1 L,
+Theorem C10_exec_iff : forall h rs src ts w1 e1 L,
   hist_in_scope h (empty_world rs src) ->
   let w := run h (empty_world rs src) in
   build_in_scope ts w -> load_world w ts = LOk L -> build ts w = (w1, e1, BOk) ->
@@ -90,7 +90,7 @@ Theorem C10_minimal_rebuild_partial : forall h rs src ts w1 e1 L,
     exists F d, sdig L (w_rules w) (w_src w) F r = Some d /\
                 ~ valid_cached (w_out w) (w_cache w) d.
 Proof. exact exec_iff_hist. Qed.
-Print Assumptions C10_minimal_rebuild_partial.
+Print Assumptions C10_exec_iff.
 
 (** ... and after a successful build every reachable rule's digest is
     validly cached: a rule whose digest is the same at the next build (nothing
@@ -107,9 +107,7 @@ Print Assumptions C10_built_is_cached.
 (** After a successful build and any source / rule edits (outputs left
     alone), the next successful build does not execute a rule that was
     reachable before and has the same action digest as before: what a change
-    does not reach is not rebuilt.  (The full claim is
-    [stmt_minimal_rebuild] in Caco/BuildProofs.v; its converse direction is
-    not proved.) *)
+    does not reach is not rebuilt (bundles included). *)
 Theorem C10_unchanged_not_rebuilt : forall h rs src ts w1 e1 L edits ts2 w3 e3 L2,
   hist_in_scope h (empty_world rs src) ->
   let w := run h (empty_world rs src) in
@@ -123,6 +121,32 @@ Theorem C10_unchanged_not_rebuilt : forall h rs src ts w1 e1 L edits ts2 w3 e3 L
     ~ In r e3.
 Proof. exact unchanged_not_rebuilt_hist. Qed.
 Print Assumptions C10_unchanged_not_rebuilt.
+
+(** "A change re-executes exactly the rules that transitively depend on it",
+    for rules with an output: after a successful build, any source and rule
+    edits (outputs left alone) and another successful build, a file set
+    reachable in both builds is executed iff its action digest changed - and
+    the digest is the structured value over the rule's own definition and,
+    recursively, the digests of everything it depends on, so it changes
+    exactly when something the rule transitively depends on changed.  (For a
+    bundle, which has no output, an old digest remains valid in the cache, so
+    only the direction [C10_unchanged_not_rebuilt] holds.) *)
+Theorem C10_minimal_rebuild : forall h rs src ts w1 e1 L edits ts2 w3 e3 L2,
+  hist_in_scope h (empty_world rs src) ->
+  let w := run h (empty_world rs src) in
+  build_in_scope ts w -> load_world w ts = LOk L -> build ts w = (w1, e1, BOk) ->
+  forallb is_edit edits = true ->
+  let w2 := run edits w1 in
+  build_in_scope ts2 w2 -> load_world w2 ts2 = LOk L2 -> build ts2 w2 = (w3, e3, BOk) ->
+  forall r rl0 fs0 ss0 is0 rl fs ss is' F d F2 d2,
+    reach_rule L ts r -> reach_rule L2 ts2 r ->
+    find_rule r (w_rules w) = Some rl0 -> r_kind rl0 = KFileSet fs0 ss0 is0 ->
+    find_rule r (w_rules w2) = Some rl -> r_kind rl = KFileSet fs ss is' ->
+    sdig L (w_rules w) (w_src w) F r = Some d ->
+    sdig L2 (w_rules w2) (w_src w2) F2 r = Some d2 ->
+    (In r e3 <-> d <> d2).
+Proof. exact minimal_rebuild_hist. Qed.
+Print Assumptions C10_minimal_rebuild.
 
 (** A rule whose execution failed is the last one logged, and its action
     digest has no cache entry afterwards: it cannot be taken as built. *)
